@@ -483,7 +483,9 @@ func c13Exec(w *c13World, rq *c13Req) (resp c13Resp) {
 	return
 }
 
-const c13ReqLimit = 1500 * time.Millisecond
+// wall-clock limit of one request inside the worker (the slowest legitimate request, a 12000-deep XML
+// document rejected by the decoder, takes 0.6 s on an idle machine)
+const c13ReqLimit = 6 * time.Second
 
 func c13Worker(ctx *core.Ctx) error {
 	nw := 6
